@@ -73,6 +73,34 @@ pub fn run(ctx: &mut Ctx) {
         let lv = *ctx.rng.pick(&levels); let z = ctx.rng.chance(1, 2);
         one(ctx, &d, lv, z, kind);
     }
+    // poorly compressible data with sparse short matches at lazy levels: the grow-and-retry loop of
+    // compress_to_vec is re-entered after a block flush in the middle of the input
+    for _ in 0..(60 * ctx.scale) {
+        let len = ctx.rng.range(60000, 75000);
+        let mut d = Vec::with_capacity(len);
+        let alpha = ctx.rng.range(30, 200);
+        while d.len() < len {
+            if d.len() > 40 && ctx.rng.chance(1, 7) {
+                let dist = ctx.rng.range(1, d.len().min(3000)); let k = ctx.rng.range(3, 7);
+                for _ in 0..k { let b = d[d.len() - dist]; d.push(b); }
+            } else { d.push(ctx.rng.below(alpha) as u8); }
+        }
+        d.truncate(len);
+        let lv = ctx.rng.range(4, 10) as u8; let z = ctx.rng.chance(1, 2);
+        one(ctx, &d, lv, z, "lazy_boundary");
+    }
+    for _ in 0..(60 * ctx.scale) {
+        let len = ctx.rng.range(32000, 63000);
+        let d = plain::gen(&mut ctx.rng, "fat_boundary", len);
+        let lv = ctx.rng.range(2, 10) as u8; let z = ctx.rng.chance(1, 2);
+        one(ctx, &d, lv, z, "fat_boundary");
+    }
+    for _ in 0..(60 * ctx.scale) {
+        let len = ctx.rng.range(33000, 50000);
+        let d = plain::gen(&mut ctx.rng, "lazy_cut", len);
+        let lv = ctx.rng.range(4, 10) as u8; let z = ctx.rng.chance(1, 2);
+        one(ctx, &d, lv, z, "lazy_cut");
+    }
     // several windows long
     let n_big = if ctx.quick() { 3 } else { 40 };
     for _ in 0..n_big {
